@@ -28,20 +28,36 @@ def pfloat(z, g):
     return s * (math.exp(s * g) - math.exp(g * (2 * z - s))) / den
 
 
+def phi(x):
+    """expm1(x) - x without cancellation"""
+    if abs(x) < 1e-2:
+        return x * x / 2 * (1 + x / 3 * (1 + x / 4 * (1 + x / 5 * (1 + x / 6 * (1 + x / 7)))))
+    return math.expm1(x) - x
+
+
 def cdf(g, z):
-    """CDF of the accepted zeta; same closed form as ForceBiasIntegral.cdf, written overflow-free"""
+    """CDF of the accepted zeta; the closed form of ForceBiasIntegral.cdf, written overflow- and cancellation-free
+    (cross-checked against the Coq definition by interval arithmetic at sample points on every run)"""
     if g < 0:
         return 1.0 - cdf(-g, -z)
     if g == 0:
         return (z + 1) / 2
     e2 = math.exp(-2 * g)
-    norm = 1 - e2
+    norm = -math.expm1(-2 * g)
+
+    def e2phi(x):   # exp(-2g) * (expm1(x) - x), overflow-free for x <= 2g
+        return math.exp(x - 2 * g) - e2 * (1 + x) if x > 30 else e2 * phi(x)
+
     if z <= 0:
-        v = (math.exp(2 * g * z) - e2) / (2 * g) - e2 * (z + 1)
+        v = e2phi(2 * g * (z + 1)) / (2 * g)
     else:
-        f0 = (1 - e2) / (2 * g) - e2
-        v = f0 + z - (math.exp(-2 * g * (1 - z)) - e2) / (2 * g)
+        v = e2phi(2 * g) / (2 * g) + z * norm - e2phi(2 * g * z) / (2 * g)
     return v / norm
+
+
+def mass_along(g):
+    g = abs(g)
+    return 1.0 - cdf(g, 0.0)
 
 
 SPECIES = [("H", 1.008), ("C", 12.011), ("Ar", 39.948), ("Au", 196.96657), ("Li", 6.94)]
@@ -66,10 +82,13 @@ def gen_case(rng, k, tight=True):
         row = []
         for j in range(3):
             d = delta[i][j] if per_coord else dscalar
-            kind = rng.choice(["zero", "mod", "mod", "mod", "big", "huge"])
+            kind = rng.choice(["zero", "tiny", "mod", "mod", "mod", "big", "huge"])
             sgn = rng.choice([-1, 1])
             if kind == "zero":
                 f = 0.0
+            elif kind == "tiny":   # far below 1 but far above rounding level: the density is the triangular limit, not uniform
+                g = sgn * rng.choice([1e-12, 1e-9, 1e-7, 1e-5, 1e-3])
+                f = g * 2 * T * KB / d
             elif kind == "mod":
                 g = sgn * rng.choice([0.01, 0.1, 0.5, 1.0, 3.0, 10.0, 50.0]) * rng.uniform(0.5, 1.5)
                 f = g * 2 * T * KB / d
@@ -82,7 +101,8 @@ def gen_case(rng, k, tight=True):
         forces.append(row)
     pos = [[rng.randint(-8, 8) / 4 for _ in range(3)] for _ in range(n)]
     c = {"natoms": n, "symbols": [s for s, _ in sp], "masses": [m * rng.choice([1.0, 1.0, 2.5]) for _, m in sp], "T": T, "delta": delta,
-         "power": power, "forces": forces, "positions": pos, "mode": "scripted"}
+         "power": power, "forces": forces, "positions": pos, "mode": "scripted",
+         "late_masses": rng.choice([None, None, "before_power", "after_power"])}
     return c
 
 
@@ -125,7 +145,8 @@ def plan_script(rng, c):
             z = -1 + 2 * t
             p = pfloat(z, gam[co])
             want = rng.random() < (0.55 if rounds < 4 else 1.0)
-            rel = rng.choice([1e-6, 1e-3, 0.3]) if abs(gam[co]) >= 0.01 else 0.3
+            ag = abs(gam[co])
+            rel = rng.choice([1e-6, 1e-3, 0.3]) if ag >= 0.01 else rng.choice([1e-3, 0.3]) if ag >= 1e-8 else 0.3
             if gam[co] == 0 or (z == 0) or p < 1e-290:
                 u = rng.uniform(0.01, 0.99)   # (P underflows in floating point: any u of ordinary size rejects, in R as well)
             elif want and p > 1e-300:
@@ -189,8 +210,8 @@ Ltac disp_close n z d mmin m p impl tol :=
         | assert (tol < Rabs (disp z d (scale_of mmin m p) - impl)) by (unfold disp, scale_of, Rpower; interval with (i_prec 64)); idtac "CASE" n "FAR"
         | idtac "CASE" n "UNDECIDED" ].
 Ltac cdf_close n g z v tol :=
-  first [ assert (Rabs (cdf g z - v) <= tol) by (unfold cdf; destruct (Rle_dec z 0); [|exfalso; lra]; unfold Fm, Fp, den; interval with (i_prec 64)); idtac "CASE" n "CLOSE"
-        | assert (Rabs (cdf g z - v) <= tol) by (unfold cdf; destruct (Rle_dec z 0); [exfalso; lra|]; unfold Fm, Fp, den; interval with (i_prec 64)); idtac "CASE" n "CLOSE"
+  first [ assert (Rabs (cdf g z - v) <= tol) by (unfold cdf; destruct (Rle_dec z 0); [|exfalso; lra]; unfold Fm, Fp, den; interval with (i_prec 160)); idtac "CASE" n "CLOSE"
+        | assert (Rabs (cdf g z - v) <= tol) by (unfold cdf; destruct (Rle_dec z 0); [exfalso; lra|]; unfold Fm, Fp, den; interval with (i_prec 160)); idtac "CASE" n "CLOSE"
         | idtac "CASE" n "FAR-OR-UNDECIDED" ].
 (* bookkeeping of the loop on a certified verdict table: accepted (zeta position, u position) pairs *)
 Definition tblv (acc : list (nat * nat)) (zp up : nat) : bool := existsb (fun e => Nat.eqb (fst e) zp && Nat.eqb (snd e) up) acc.
@@ -228,7 +249,7 @@ def run(res: C.Result):
         results[j::16] = o["results"]
 
     coq_files, meta = [], []  # one Goal per case; meta: (case, kind, payload)
-    dist = {"atoms": {}, "rounds": {}, "gamma_class": {"zero": 0, "lt1": 0, "1to50": 0, "gt50": 0, "clipped": 0}, "entries": 0,
+    dist = {"atoms": {}, "rounds": {}, "late_masses": {}, "gamma_class": {"zero": 0, "tiny(<=1e-3)": 0, "lt1": 0, "1to50": 0, "gt50": 0, "clipped": 0}, "entries": 0,
             "accept_entries": 0, "reject_entries": 0, "margin": {}, "power_kind": {}, "per_coordinate_delta": 0}
     eid = 0
     chk_lines = []
@@ -237,9 +258,10 @@ def run(res: C.Result):
         dist["rounds"][rounds] = dist["rounds"].get(rounds, 0) + 1
         dist["power_kind"][type(c["power"]).__name__] = dist["power_kind"].get(type(c["power"]).__name__, 0) + 1
         dist["per_coordinate_delta"] += isinstance(c["delta"], list)
+        dist["late_masses"][str(c.get("late_masses"))] = dist["late_masses"].get(str(c.get("late_masses")), 0) + 1
         for g in gam:
             a = abs(g)
-            key = "zero" if a == 0 else "clipped" if a >= GMAX else "lt1" if a < 1 else "1to50" if a <= 50 else "gt50"
+            key = "zero" if a == 0 else "clipped" if a >= GMAX else "tiny(<=1e-3)" if a <= 1.5e-3 else "lt1" if a < 1 else "1to50" if a <= 50 else "gt50"
             dist["gamma_class"][key] += 1
         if "exception" in r:
             res.fail("exception", f"step() raised {r['exception']}: {r['message']}", {"input": c, "observed": r})
@@ -360,7 +382,7 @@ def run(res: C.Result):
         input_distribution=dist, statistical=stats["tests"])
     res.samples += [{"case": {x: cases[i][x] for x in ("natoms", "T", "delta", "power", "forces")}, "script": cases[i]["script"][:8],
                      "impl": {x: results[i].get(x) for x in ("consumed", "zeta", "dx")}} for i in (0, 1)]
-    res.assumptions += ["density clause checked for |gamma| >= 0.005 or exactly 0 (the property excludes coordinates at rounding level); tiny non-zero forces are run for bound/termination only",
+    res.assumptions += ["density clause tied for |gamma| >= 1e-12 (margins 0.3 below 1e-8, where the float value of P carries a relative error ~1e-16/|gamma|) or exactly 0; the KS search goes down to |gamma| = 1e-11; smaller non-zero forces are run for bound/termination only",
                         "float/real gap: u is placed at relative distance >= 1e-6 from P; zeta is kept within |zeta| <= 0.99 for tight margins"]
 
 
@@ -414,7 +436,7 @@ def real_runs(res, rng, quick):
                 if abs(dx - z * bound) > 1e-12 * (1 + abs(bound)):
                     res.fail("advance-once", f"dx={dx!r} is not zeta*delta*scale={z * bound!r}", {"input": c, "step": s, "coord": co})
     # (b) density: KS against the proved CDF + mass on the force side
-    gammas = [1.0, -5.0] if quick else [0.01, -0.1, 1.0, -1.0, 5.0, -5.0, 50.0, -50.0, 709.782712, -2000.0]
+    gammas = [1.0, -5.0, 4e-9] if quick else [1e-11, -4e-9, 1e-6, 0.01, -0.1, 1.0, -1.0, 5.0, -5.0, 50.0, -50.0, 709.782712, -2000.0]
     T, d = 300.0, 0.1
     sample_points = []
     for g in gammas:
@@ -435,7 +457,7 @@ def real_runs(res, rng, quick):
             D = ks_stat(zs, geff)
             stat = D * math.sqrt(n)
             frac_along = r["zstats"]["frac_pos"] if geff > 0 else 1 - r["zstats"]["frac_pos"]
-            expect = 1 / (1 - math.exp(-2 * abs(geff))) - 1 / (2 * abs(geff))
+            expect = mass_along(geff)
             zscore = (frac_along - expect) / math.sqrt(expect * (1 - expect) / n)
             info = {"test": "KS(zeta ~ proved CDF) and mass on the force side", "gamma": g, "n": n, "ks_sqrt_n": round(stat, 3),
                     "threshold": 3.0, "frac_along_force": frac_along, "expected": expect, "z": round(zscore, 2), "z_threshold": 6.5, "stage": stage}
